@@ -403,6 +403,9 @@ func replayComponent(line, tmp string) (string, bool) {
 	if a, ok := idsAnswer(line, tmp); ok {
 		return a, true
 	}
+	if a, ok := docsAnswer(line, tmp); ok {
+		return a, true
+	}
 	return tokensAnswer(line, tmp)
 }
 
